@@ -529,8 +529,8 @@ def work_items(tier):
         fix_family("tet_and_cube", sampled(16, 20000), 11, False)
         fix_family("torus3x3", sampled(18, 20000), 11, False)
         fix_family("skew_tetrahedron", list(subsets(4)), 1, True)
-    for name, cnt in (("tetrahedron", 16), ("octahedron", 60), ("cube", 220), ("tet_and_cube", 220),
-                      ("torus3x3", 220), ("regular_octahedron", 30)):
+    for name, cnt in (("tetrahedron", 16), ("octahedron", 60), ("cube", 180), ("tet_and_cube", 180),
+                      ("torus3x3", 180), ("regular_octahedron", 30)):
         fix_family(name, sampled(len(LIB[name][1]), cnt * (8 if big else 1)), 7, False)
     # whole bodies of one or both components re-wound (the per-body inversion test alone)
     for name in ("tetrahedron", "octahedron", "cube", "tet_and_cube", "torus3x3"):
@@ -825,7 +825,7 @@ def main(argv):
         "exhaustive": bool(exhaustive),
         "exhaustive_scopes": exhaustive,
         "rejected": nrej,
-        "rejected_by_clause_and_deviation": {"%s|%s" % (k[0], k[1] or "-"): v for k, v in sorted(reported.items())},
+        "rejected_by_clause_and_deviation": {"%s|%s" % (k[0], k[1] or "-"): v for k, v in sorted(reported.items(), key=lambda kv: (kv[0][0], kv[0][1] or ""))},
         "rejected_by_deviation": by_dev,
         "reported_violations_capped_per_clause_and_deviation": REPORT_CAP,
         "to_size_results_too_large_to_validate": nskip,
